@@ -62,10 +62,73 @@ def case_seed(base_seed, index):
     return int(base_seed) * SEED_STRIDE + int(index)
 
 
+class FrozenOutcome:
+    """An Outcome that crossed a process boundary."""
+
+    def __init__(self, d):
+        self.violations = d["violations"]
+        self.stats = collections.Counter(d["stats"])
+        self.fps = set(d["fps"])
+        self.states = set(d["states"])
+        self.sample = d["sample"]
+        self.sim_time = d["sim_time"]
+        self._digest = d["digest"]
+
+    def digest(self):
+        return self._digest
+
+
+class FrozenChoices:
+    def __init__(self, log):
+        self.log = log
+
+    def values(self):
+        return [v for (_, _, v) in self.log]
+
+
 def run_case(spec, seed=None, values=None):
+    if getattr(spec, "ISOLATE", False):
+        return _run_case_forked(spec, seed, values)
     ch = Choices(seed=seed, replay=values)
     out = spec.case(ch)
     return out, ch
+
+
+def _run_case_forked(spec, seed, values):
+    """Run one case in a forked child, so that it starts from the process-global state of a fresh process
+    (class attributes, module globals, caches) -- for properties that speak about fresh processes."""
+    import pickle
+    r, w = os.pipe()
+    pid = os.fork()
+    if pid == 0:
+        code = 0
+        try:
+            os.close(r)
+            ch = Choices(seed=seed, replay=values)
+            out = spec.case(ch)
+            payload = pickle.dumps({"ok": True, "log": ch.log, "out": {
+                "violations": out.violations, "stats": dict(out.stats), "fps": list(out.fps), "states": list(out.states),
+                "sample": out.sample, "sim_time": out.sim_time, "digest": out.digest()}})
+        except BaseException:       # noqa: BLE001
+            payload = pickle.dumps({"ok": False, "error": traceback.format_exc()})
+            code = 3
+        try:
+            with os.fdopen(w, "wb") as f:
+                f.write(payload)
+            if hasattr(spec, "child_cleanup"):
+                spec.child_cleanup()
+        finally:
+            os._exit(code)
+    os.close(w)
+    with os.fdopen(r, "rb") as f:
+        data = f.read()
+    os.waitpid(pid, 0)
+    if not data:
+        raise HarnessError("isolated case (seed %r) died without reporting" % (seed,))
+    d = pickle.loads(data)
+    if not d["ok"]:
+        raise HarnessError("isolated case (seed %r) failed in the harness:\n%s" % (seed, d["error"]))
+    return FrozenOutcome(d["out"]), FrozenChoices(d["log"])
 
 
 # ------------------------------------------------------------------------------------------------
@@ -135,9 +198,8 @@ def _shrink_one(spec_name, viol, budget_s):
     hints = None
     if hasattr(spec, "shrink_hints"):
         def hints(values):
-            ch = Choices(replay=values)
             try:
-                spec.case(ch)
+                _, ch = run_case(spec, values=values)
             except KernelStuck:
                 return []
             return spec.shrink_hints([l for (l, _, _) in ch.log], ch.values())
